@@ -505,7 +505,8 @@ func runScenario(sc scenario, seed uint64) (out outcome) {
 	}
 	overOnce.Do(func() { close(scenarioOver) })
 	lg.Add("stop")
-	if skipStop && (sc.Limit == 0 || sc.Limit > 70) {
+	if (skipStop && (sc.Limit == 0 || sc.Limit > 70)) || hangs >= 3 {
+		// the hang is already reported (3 replays); do not pay 16 s per further scenario
 		out.StopReturned = true
 		out.Events = lg.Snapshot()
 		return
@@ -582,9 +583,34 @@ func runScenario(sc scenario, seed uint64) (out outcome) {
 
 var skipStop bool
 
+type missing struct {
+	gate int
+	rep  map[string]any
+}
+
+var missingDone []missing
+
+// A Done that never reaches the peer although Stop() was called with agency: a single
+// occurrence in a run is the (listed) drain race - WaitSendQueueDrained saw "drained" between
+// sendLoop taking Done and handing the segment over; two or more mean Done is not being sent.
+func judgeMissingDone(c *vh.Ctx) {
+	for _, m := range missingDone {
+		key := "stop-drain-race"
+		if len(missingDone) >= 2 {
+			key = "done-missing-with-agency"
+		}
+		c.Res.Violate("monitor", key,
+			fmt.Sprintf("Stop() was called while callback %d was blocked (every request answered: the client has agency) and Done had not reached the peer after 5 s (%d such scenario(s) this run)", m.gate, len(missingDone)), m.rep)
+	}
+}
+var hangs int
+
 func monitor(c *vh.Ctx, sc scenario, out outcome) {
 	if !out.StopReturned {
 		skipStop = true
+		if sc.Limit != 0 && sc.Limit <= 70 {
+			hangs++ // not the known queue-full hang
+		}
 	}
 	rep := map[string]any{"scenario": sc, "outcome": out}
 	if out.SyncErr != "" {
@@ -671,15 +697,20 @@ func monitor(c *vh.Ctx, sc scenario, out outcome) {
 		case "rep":
 			wreps++
 		case "seg":
+			doneInThisSeg := false
 			for _, t := range f[1:] {
-				if doneWritten {
-					c.Res.Violate("monitor", "write-after-done", fmt.Sprintf("message type %s was written on chain-sync after Done", t), rep)
+				if doneWritten && doneInThisSeg {
+					// a pipelined follower behind Done in Done's own batch: the other face of the drain race
+					c.Res.Violate("monitor", "stop-drain-race", fmt.Sprintf("message type %s was written behind Done in the same segment", t), rep)
+				} else if doneWritten {
+					c.Res.Violate("monitor", "write-after-done", fmt.Sprintf("message type %s was written on chain-sync in a segment after Done's", t), rep)
 				}
 				switch t {
 				case "0":
 					wreq++
 				case "7":
 					doneWritten = true
+					doneInThisSeg = true
 					if wreq != wreps {
 						// the server has answered wreps of the wreq requests written so far: it holds agency
 						c.Res.Violate("monitor", "done-sent-without-agency",
@@ -690,8 +721,8 @@ func monitor(c *vh.Ctx, sc scenario, out outcome) {
 		}
 	}
 	if out.Gated && out.StopReturned && !out.DoneAtGate {
-		c.Res.Violate("monitor", "done-missing-with-agency",
-			fmt.Sprintf("Stop() was called while callback %d was blocked (every request answered: the client has agency) and Done had not reached the peer after 5 s", sc.Gate), rep)
+		// judged at the end of the run (judgeMissingDone): once = the drain race, more = Done is not sent
+		missingDone = append(missingDone, missing{sc.Gate, rep})
 	}
 	if len(out.GoLeft) > 0 {
 		c.Res.Violate("monitor", "goroutine-left-after-stop", fmt.Sprintf("chain-sync client goroutines still running 5 s after Stop() returned: %v", out.GoLeft), rep)
@@ -862,6 +893,7 @@ func run(c *vh.Ctx) error {
 			return err
 		}
 		runOne(c, cf, rp.Replay.Scenario, 1)
+		judgeMissingDone(c)
 		cf.Flush()
 		return nil
 	}
@@ -898,6 +930,7 @@ func run(c *vh.Ctx) error {
 			runOne(c, cf, genScenario(c.Rng, lim, n), c.Rng.U64())
 		}
 	}
+	judgeMissingDone(c)
 	cf.Flush()
 	return nil
 }
